@@ -52,7 +52,7 @@ class Prop:
     hang_rule = "did-not-finish"
     chunk = 50
     rule = ("seeded finite schedules with 0-400 actions at the same due time (plus a few at other times), some of which reschedule "
-            "themselves at the current time a bounded number of times and some of which are cancelled while queued (right after scheduling, or by "
+            "themselves at the current time a bounded number of times one of which may call advance_by() on the running scheduler (a no-op then), and some of which are cancelled while queued (right after scheduling, or by "
             "the action scheduled just before them), on VirtualTimeScheduler/TestScheduler (numeric clock) and "
             "HistoricalScheduler (datetime clock), driven by start() or advance_to(); the run must return within the CPU-time watchdog, "
             "every action must have run exactly once per scheduling in (due, seq) order with a monotone clock, and a drained scheduler "
@@ -68,7 +68,9 @@ class Prop:
                 "driver": rng.choice(["start", "advance_to"]), "restart": rng.choice([1, 3, 150]),
                 # cancelled work in the queue: disposed right after scheduling (k-th scheduled action), or by the action scheduled before it
                 "cancel_pre": sorted(set(rng.randrange(0, max(1, burst + 3)) for _ in range(rng.choice([0, 0, 1, 2])))),
-                "cancel_by_prev": sorted(set(rng.randrange(1, max(2, burst + 3)) for _ in range(rng.choice([0, 0, 1]))))}
+                "cancel_by_prev": sorted(set(rng.randrange(1, max(2, burst + 3)) for _ in range(rng.choice([0, 0, 1])))),
+                # one action calls advance_by() on the scheduler that is running it (a no-op while a run is in progress)
+                "nested_advance": rng.choice([None, None, None, 0, 1, 2, 60])}
 
     def execute(self, sc):
         out = Outcome()
@@ -111,6 +113,8 @@ class Prop:
 
             def action(scheduler, state=None):
                 log.append((aid, now()))
+                if sc.get("nested_advance") == k:
+                    s.advance_by(7.0)
                 if k + 1 in by_prev and k + 1 < len(disps):
                     disps[k + 1].dispose()  # cancels the action scheduled right after this one (it may share this due time)
                 if n_resched:
